@@ -27,3 +27,15 @@ pub use crate::ebr_impl::verif_shim as ebr;
 pub use crate::utils::verif_shim as rc;
 pub use crate::strong::verif_shim_strong as strong;
 pub use crate::weak::verif_shim_weak as weak;
+
+/// The raw word of a tagged pointer (address | tag | timestamp).
+#[inline]
+pub fn w<T>(t: &crate::ebr_impl::Tagged<T>) -> usize {
+    unsafe { core::mem::transmute_copy(t) }
+}
+
+/// The raw data word of an `Epoch` (value << 1 | pinned).
+#[inline]
+pub fn ed(e: crate::ebr_impl::Epoch) -> usize {
+    crate::ebr_impl::verif_shim::data(e)
+}
